@@ -61,7 +61,7 @@ end
 
 theorem mem_markGone (hasCb : Bool) (w : WP) (pid : Nat) (v : Option Int) :
     pid ∈ (markGone hasCb w pid v).gone := by
-  simp only [markGone]
+  simp only [markGone_eq]
   split
   · assumption
   · simp
@@ -168,9 +168,10 @@ theorem waitProcs_alive (procs : List Nat) (timeout : Option Rat) (w w' : WP) (a
     (hf : Fresh envOf w)
     (h : waitProcs c envOf procs timeout hasCb order fuel w = .ok (w', alive')) :
     ∀ q ∈ alive', (∀ n, (envOf q).eintr n = false) → ¬ endedBy (envOf q) w'.now := by
-  obtain ⟨hg0, hcb0, hc0⟩ := hf
+  obtain ⟨hg0, hcb0, hs0, hc0⟩ := hf
   have hl0 : LInv envOf hasCb (dedup procs) w (dedup procs) := by
-    refine ⟨⟨by rw [hg0]; simp, by rw [hcb0, hg0]; simp, by rw [hg0]; simp, by rw [hg0]; simp, hc0⟩,
+    refine ⟨⟨by rw [hg0]; simp, by rw [hcb0, hg0]; simp, by rw [hg0]; simp, by rw [hg0]; simp, hc0,
+        by rw [hs0]; simp, by rw [hs0, hcb0]; simp⟩,
       nodup_dedup procs, fun q => by rw [hg0]; simp⟩
   unfold waitProcs at h
   by_cases hneg : negative timeout = true
